@@ -42,6 +42,7 @@ structure World (α : Type) where
 inductive Op (α : Type) where
   | setValue (i : Nat) (v : α)
   | setError (i : Nat) (e : α)
+  | setRel (i : Nat) (r : α)            -- `m.relative_error = r`: the uncertainty becomes |value| * r
   | setCorr (i j : Nat) (r : α)
   | resetCorr
   | read (n : Nat)
@@ -110,6 +111,7 @@ def ensureSim (w : World α) (n : Nat) : World α × Nat :=
 def step (w : World α) : Op α → World α × Out α
   | .setValue i v => ({ w with vals := w.vals.set i v }, .ok)
   | .setError i e => ({ w with errs := w.errs.set i e }, .ok)
+  | .setRel i r => ({ w with errs := w.errs.set i (Num.mul (Num.abs (w.env i)) r) }, .ok)
   | .setCorr i j r => ({ w with corr := (i, j, r) :: w.corr }, .ok)
   | .resetCorr => ({ w with corr := [] }, .ok)
   | .read n =>
